@@ -31,25 +31,25 @@ theorem optTagLe_trans (a b c : Option Tag) (h1 : optTagLe a b = true) (h2 : opt
   cases a <;> cases b <;> cases c <;> simp_all [optTagLe]
   exact Tag.le_trans _ _ _ h1 h2
 
-/-- the key order spelled out: root before extension; within the same part, by tag -/
+/-- the key order spelled out: root before extension addition; two root components by tag; two
+    extension additions always (they compare `Equal`, the stable sort leaves them as written) -/
 theorem keyLe_iff (a b : Bool × RField) :
     keyLe a b = true ↔
-      (a.1 = false ∧ b.1 = true) ∨ (a.1 = b.1 ∧ optTagLe a.2.tag b.2.tag = true) := by
-  simp [keyLe]
+      (a.1 = false ∧ b.1 = true) ∨ (a.1 = true ∧ b.1 = true) ∨
+      (a.1 = false ∧ b.1 = false ∧ optTagLe a.2.tag b.2.tag = true) := by
+  obtain ⟨fa, ra⟩ := a; obtain ⟨fb, rb⟩ := b
+  cases fa <;> cases fb <;> simp [keyLe]
 
 theorem keyLe_total (a b : Bool × RField) : (keyLe a b || keyLe b a) = true := by
-  have := optTagLe_total a.2.tag b.2.tag
-  simp only [Bool.or_eq_true, keyLe_iff] at *
-  cases a.1 <;> cases b.1 <;> simp_all
+  obtain ⟨fa, ra⟩ := a; obtain ⟨fb, rb⟩ := b
+  have := optTagLe_total ra.tag rb.tag
+  cases fa <;> cases fb <;> simp_all [keyLe]
 
 theorem keyLe_trans (a b c : Bool × RField) (h1 : keyLe a b = true) (h2 : keyLe b c = true) :
     keyLe a c = true := by
-  simp only [keyLe_iff] at *
-  rcases h1 with ⟨h1, h1'⟩ | ⟨h1, h1'⟩ <;> rcases h2 with ⟨h2, h2'⟩ | ⟨h2, h2'⟩
-  · simp_all
-  · left; exact ⟨h1, by rw [← h2]; exact h1'⟩
-  · left; exact ⟨by rw [h1]; exact h2, h2'⟩
-  · right; exact ⟨h1.trans h2, optTagLe_trans _ _ _ h1' h2'⟩
+  obtain ⟨fa, ra⟩ := a; obtain ⟨fb, rb⟩ := b; obtain ⟨fc, rc⟩ := c
+  have := optTagLe_trans ra.tag rb.tag rc.tag
+  cases fa <;> cases fb <;> cases fc <;> simp_all [keyLe]
 
 /-! ### `minTag` is "sort, then take the first" -/
 
@@ -238,14 +238,13 @@ theorem pairwise_prepare_of_indexed (e : Option Nat) (l : List RField) (k : Nat)
     rw [keyLe_iff]
     simp only [ha, hxt, Option.orElse_some]
     by_cases hf : extendedFlag e k = true
-    · right
-      exact ⟨by rw [hf, extendedFlag_mono e k x.2 (by omega) hf],
-        optTagLe_contextSpecific _ _ (by omega)⟩
+    · right; left
+      exact ⟨hf, extendedFlag_mono e k x.2 (by omega) hf⟩
     · cases hx2 : extendedFlag e x.2 with
       | true => left; exact ⟨by simpa using hf, rfl⟩
       | false =>
-        right
-        exact ⟨by simpa using hf, optTagLe_contextSpecific _ _ (by omega)⟩
+        right; right
+        exact ⟨by simpa using hf, rfl, optTagLe_contextSpecific _ _ (by omega)⟩
 
 theorem indexed_zipIdx_map (l : List RField) (k : Nat) :
     ∀ x ∈ ((l.zipIdx k).map fun (x : RField × Nat) =>
@@ -301,6 +300,262 @@ theorem sort_assignImplicitTags_of_noneTagged (fields : List RField) (e : Option
     have := hsome p.2 this
     cases ht : p.2.tag <;> simp_all
   simp [this]
+
+/-! ### `mergeSort` is stable insertion from the front -/
+
+/-- `a` goes behind the elements strictly smaller than it and in front of everything else -/
+def insertFirst {α : Type} (le : α → α → Bool) (a : α) (l : List α) : List α :=
+  l.takeWhile (fun b => !le a b) ++ a :: l.dropWhile (fun b => !le a b)
+
+theorem takeWhile_dropWhile_append {α : Type} (p : α → Bool) (l₁ l₂ : List α)
+    (h1 : ∀ b ∈ l₁, p b = true) (h2 : ∀ b ∈ l₂, p b = false) :
+    (l₁ ++ l₂).takeWhile p = l₁ ∧ (l₁ ++ l₂).dropWhile p = l₂ := by
+  induction l₁ with
+  | nil =>
+    cases l₂ with
+    | nil => simp
+    | cons b l₂ => simp [h2 b (by simp)]
+  | cons a l₁ ih =>
+    have ha := h1 a (by simp)
+    have := ih (fun b hb => h1 b (List.mem_cons_of_mem _ hb))
+    simp [ha, this.1, this.2]
+
+/-- core's `mergeSort` puts the head where stable insertion puts it -/
+theorem mergeSort_cons_eq {α : Type} {le : α → α → Bool}
+    (trans : ∀ (a b c : α), le a b → le b c → le a c) (total : ∀ (a b : α), le a b || le b a)
+    (a : α) (l : List α) : (a :: l).mergeSort le = insertFirst le a (l.mergeSort le) := by
+  obtain ⟨l₁, l₂, h1, h2, h3⟩ := List.mergeSort_cons trans total a l
+  have hs := List.pairwise_mergeSort trans total (a :: l)
+  rw [h1] at hs
+  have hl2 : ∀ b ∈ l₂, (!le a b) = false := by
+    intro b hb
+    have h := (List.pairwise_append.1 hs).2.1
+    have := List.rel_of_pairwise_cons h hb
+    simp [this]
+  obtain ⟨ht, hd⟩ := takeWhile_dropWhile_append (fun b => !le a b) l₁ l₂ (fun b hb => h3 b hb) hl2
+  rw [h1, h2, insertFirst, ht, hd]
+
+theorem insertFirst_append {α : Type} (le : α → α → Bool) (a : α) (X A : List α)
+    (h : ∀ b ∈ A, le a b = true) : insertFirst le a (X ++ A) = insertFirst le a X ++ A := by
+  induction X with
+  | nil =>
+    cases A with
+    | nil => rfl
+    | cons b A => simp [insertFirst, h b (by simp)]
+  | cons x X ih =>
+    unfold insertFirst at *
+    by_cases hx : le a x = true
+    · simp [hx]
+    · simp only [List.cons_append, List.takeWhile_cons, List.dropWhile_cons, hx, Bool.not_false,
+        if_true]
+      simp [ih]
+
+/-- a block `A` that is in order already and not smaller than anything in front of it stays where
+    it is; only the part in front is sorted -/
+theorem mergeSort_append_of_le {α : Type} {le : α → α → Bool}
+    (trans : ∀ (a b c : α), le a b → le b c → le a c) (total : ∀ (a b : α), le a b || le b a)
+    (R A : List α) (hA : A.Pairwise (fun a b => le a b = true))
+    (hRA : ∀ r ∈ R, ∀ a ∈ A, le r a = true) :
+    (R ++ A).mergeSort le = R.mergeSort le ++ A := by
+  induction R with
+  | nil => simpa using List.mergeSort_of_pairwise hA
+  | cons r R ih =>
+    rw [List.cons_append, mergeSort_cons_eq trans total,
+      ih (fun x hx => hRA x (List.mem_cons_of_mem _ hx)),
+      insertFirst_append le r _ A (hRA r (by simp)), ← mergeSort_cons_eq trans total]
+
+
+/-! ### the SET sort: root components sorted, extension additions as written -/
+
+/-- number of root components: `extension_after + 1`, all of them without a marker -/
+def rootCount (extAfter : Option Nat) (len : Nat) : Nat :=
+  match extAfter with
+  | some after => min (after + 1) len
+  | none => len
+
+theorem rootCount_le (e : Option Nat) (len : Nat) : rootCount e len ≤ len := by
+  cases e <;> simp [rootCount]; omega
+
+/-- the flag the generator works with says "index below the root count" -/
+theorem extendedFlag_eq_false_iff (e : Option Nat) (i len : Nat) (hi : i < len) :
+    extendedFlag e i = false ↔ i < rootCount e len := by
+  cases e with
+  | none => simp [extendedFlag, rootCount, hi]
+  | some a => simp only [extendedFlag, rootCount, decide_eq_false_iff_not]; omega
+
+theorem getElem_prepare (fields : List RField) (e : Option Nat) (i : Nat)
+    (h : i < (prepare fields e).length) :
+    (prepare fields e)[i] =
+      (extendedFlag e i,
+       { fields[i]'(by rw [length_prepare] at h; exact h) with
+         tag := (fields[i]'(by rw [length_prepare] at h; exact h)).tag.orElse fun _ =>
+           (fields[i]'(by rw [length_prepare] at h; exact h)).typeTag }) := by
+  simp [prepare]
+
+/-- the first `rootCount` prepared components are flagged root … -/
+theorem flag_take_prepare (fields : List RField) (e : Option Nat) :
+    ∀ p ∈ (prepare fields e).take (rootCount e fields.length), p.1 = false := by
+  intro p hp
+  obtain ⟨j, hj, rfl⟩ := List.mem_take_iff_getElem.1 hp
+  rw [length_prepare] at hj
+  rw [getElem_prepare]
+  exact (extendedFlag_eq_false_iff e j fields.length (by omega)).2 (by omega)
+
+/-- … the others extension addition -/
+theorem flag_drop_prepare (fields : List RField) (e : Option Nat) :
+    ∀ p ∈ (prepare fields e).drop (rootCount e fields.length), p.1 = true := by
+  intro p hp
+  obtain ⟨j, hj, rfl⟩ := List.mem_drop_iff_getElem.1 hp
+  rw [length_prepare] at hj
+  rw [getElem_prepare]
+  cases hf : extendedFlag e (rootCount e fields.length + j) with
+  | true => rfl
+  | false =>
+    have := (extendedFlag_eq_false_iff e _ fields.length (by omega)).1 hf
+    omega
+
+/-- **the shape of the sorted list**: the root components, sorted among themselves, followed by the
+    extension additions exactly as they are written -/
+theorem sortKeyed_eq (fields : List RField) (e : Option Nat) :
+    sortKeyed fields e =
+      ((prepare fields e).take (rootCount e fields.length)).mergeSort keyLe ++
+        (prepare fields e).drop (rootCount e fields.length) := by
+  unfold sortKeyed
+  conv => lhs; rw [← List.take_append_drop (rootCount e fields.length) (prepare fields e)]
+  apply mergeSort_append_of_le keyLe_trans keyLe_total
+  · refine List.Pairwise.imp_of_mem ?_ (List.pairwise_of_forall (R := fun _ _ => True) (fun _ _ => trivial))
+    intro a b ha hb _
+    rw [keyLe_iff]
+    exact Or.inr (Or.inl ⟨flag_drop_prepare fields e a ha, flag_drop_prepare fields e b hb⟩)
+  · intro r hr a ha
+    rw [keyLe_iff]
+    exact Or.inl ⟨flag_take_prepare fields e r hr, flag_drop_prepare fields e a ha⟩
+
+
+/-- the component as the sort sees it: `field.tag.or_else(|| field.r#type().tag())` -/
+def RField.withTypeTag (f : RField) : RField := { f with tag := f.tag.orElse fun _ => f.typeTag }
+
+theorem map_snd_prepare (fields : List RField) (e : Option Nat) :
+    (prepare fields e).map (·.2) = fields.map RField.withTypeTag := by
+  unfold prepare
+  rw [List.map_map]
+  have : ((fun p : Bool × RField => p.2) ∘ fun (x : RField × Nat) =>
+      (extendedFlag e x.2, ({ x.1 with tag := x.1.tag.orElse fun _ => x.1.typeTag } : RField)))
+      = RField.withTypeTag ∘ Prod.fst := by
+    funext x; rfl
+  rw [this, ← List.map_map, List.zipIdx_map_fst]
+
+theorem length_sorted_roots (fields : List RField) (e : Option Nat) :
+    (((prepare fields e).take (rootCount e fields.length)).mergeSort keyLe).length =
+      rootCount e fields.length := by
+  rw [(List.mergeSort_perm _ _).length_eq, List.length_take, length_prepare]
+  exact Nat.min_eq_left (rootCount_le e fields.length)
+
+/-- what a successful `sort_fields_canonically` returns, split at the root count -/
+theorem sortFieldsCanonically_split (fields : List RField) (e : Option Nat) (out : List RField)
+    (h : sortFieldsCanonically fields e = .ok out) :
+    out.take (rootCount e fields.length) =
+      (((prepare fields e).take (rootCount e fields.length)).mergeSort keyLe).map (·.2) ∧
+    out.drop (rootCount e fields.length) =
+      (fields.drop (rootCount e fields.length)).map RField.withTypeTag := by
+  unfold sortFieldsCanonically at h
+  split at h
+  · cases h
+  · simp only [Outcome.ok.injEq] at h
+    subst h
+    rw [sortKeyed_eq, List.map_append]
+    have hl : ((((prepare fields e).take (rootCount e fields.length)).mergeSort keyLe).map
+        (·.2)).length = rootCount e fields.length := by
+      rw [List.length_map, length_sorted_roots]
+    refine ⟨List.take_left' hl, ?_⟩
+    rw [List.drop_left' hl, List.map_drop, map_snd_prepare, List.map_drop]
+
+/-- "some field is missing a tag assignment", read off the fields -/
+theorem any_untagged_prepare (fields : List RField) (e : Option Nat) :
+    (prepare fields e).any (fun p => p.2.tag.isNone) =
+      fields.any (fun f => (f.tag.orElse fun _ => f.typeTag).isNone) := by
+  have : (prepare fields e).any (fun p => p.2.tag.isNone) =
+      ((prepare fields e).map (·.2)).any (fun f => f.tag.isNone) := by
+    rw [List.any_map]; rfl
+  rw [this, map_snd_prepare, List.any_map]
+  rfl
+
+theorem prepare_append (fields adds : List RField) (e : Option Nat) :
+    prepare (fields ++ adds) e = prepare fields e ++
+      (adds.zipIdx fields.length).map fun (x : RField × Nat) =>
+        (extendedFlag e x.2, { x.1 with tag := x.1.tag.orElse fun _ => x.1.typeTag }) := by
+  unfold prepare
+  rw [List.zipIdx_append, List.map_append, Nat.zero_add]
+
+/-- **appending extension additions appends them to the emitted order**: with the marker behind
+    component `k` of the old list, the new list sorts to the old result followed by the new
+    additions as written — the order of the components both versions know does not change -/
+theorem sortFieldsCanonically_append (fields adds : List RField) (k : Nat)
+    (hk : k < fields.length) (out : List RField)
+    (h : sortFieldsCanonically fields (some k) = .ok out)
+    (ha : ∀ f ∈ adds, (f.tag.orElse fun _ => f.typeTag).isSome = true) :
+    sortFieldsCanonically (fields ++ adds) (some k) =
+      .ok (out ++ adds.map RField.withTypeTag) := by
+  have hn : rootCount (some k) (fields ++ adds).length = rootCount (some k) fields.length := by
+    simp only [rootCount, List.length_append]; omega
+  have hnle : rootCount (some k) fields.length ≤ (prepare fields (some k)).length := by
+    rw [length_prepare]; exact rootCount_le _ _
+  have hsk : sortKeyed (fields ++ adds) (some k) = sortKeyed fields (some k) ++
+      (adds.zipIdx fields.length).map fun (x : RField × Nat) =>
+        (extendedFlag (some k) x.2, { x.1 with tag := x.1.tag.orElse fun _ => x.1.typeTag }) := by
+    rw [sortKeyed_eq, sortKeyed_eq, hn, prepare_append, List.take_append_of_le_length hnle,
+      List.drop_append_of_le_length hnle, List.append_assoc]
+  have hadds : ((adds.zipIdx fields.length).map fun (x : RField × Nat) =>
+      (extendedFlag (some k) x.2,
+        ({ x.1 with tag := x.1.tag.orElse fun _ => x.1.typeTag } : RField))).map (·.2) =
+      adds.map RField.withTypeTag := by
+    rw [List.map_map]
+    have : ((fun p : Bool × RField => p.2) ∘ fun (x : RField × Nat) =>
+        (extendedFlag (some k) x.2,
+          ({ x.1 with tag := x.1.tag.orElse fun _ => x.1.typeTag } : RField)))
+        = RField.withTypeTag ∘ Prod.fst := by
+      funext x; rfl
+    rw [this, ← List.map_map, List.zipIdx_map_fst]
+  unfold sortFieldsCanonically at h ⊢
+  rw [any_untagged_prepare] at h ⊢
+  split at h
+  · cases h
+  · rename_i hf
+    simp only [Outcome.ok.injEq] at h
+    have hany : (fields ++ adds).any (fun f => (f.tag.orElse fun _ => f.typeTag).isNone) = false := by
+      rw [List.any_append, Bool.or_eq_false_iff]
+      refine ⟨by simpa using hf, ?_⟩
+      rw [List.any_eq_false]
+      intro f hfm
+      have := ha f hfm
+      cases hx : (f.tag.orElse fun _ => f.typeTag) with
+      | none => rw [hx] at this; cases this
+      | some t => simp
+    rw [hany]
+    simp only [Bool.false_eq_true, if_false, Outcome.ok.injEq]
+    rw [hsk, List.map_append, h, hadds]
+
+theorem filter_root_prepare (fields : List RField) (e : Option Nat) :
+    (prepare fields e).filter (fun p => !p.1) =
+      (prepare fields e).take (rootCount e fields.length) := by
+  have h1 : ((prepare fields e).take (rootCount e fields.length)).filter (fun p => !p.1) =
+      (prepare fields e).take (rootCount e fields.length) :=
+    List.filter_eq_self.2 fun p hp => by simp [flag_take_prepare fields e p hp]
+  have h2 : ((prepare fields e).drop (rootCount e fields.length)).filter (fun p => !p.1) = [] :=
+    List.filter_eq_nil_iff.2 fun p hp => by simp [flag_drop_prepare fields e p hp]
+  conv => lhs; rw [← List.take_append_drop (rootCount e fields.length) (prepare fields e)]
+  rw [List.filter_append, h1, h2, List.append_nil]
+
+theorem filter_ext_prepare (fields : List RField) (e : Option Nat) :
+    (prepare fields e).filter (fun p => p.1) =
+      (prepare fields e).drop (rootCount e fields.length) := by
+  have h1 : ((prepare fields e).take (rootCount e fields.length)).filter (fun p => p.1) = [] :=
+    List.filter_eq_nil_iff.2 fun p hp => by simp [flag_take_prepare fields e p hp]
+  have h2 : ((prepare fields e).drop (rootCount e fields.length)).filter (fun p => p.1) =
+      (prepare fields e).drop (rootCount e fields.length) :=
+    List.filter_eq_self.2 fun p hp => by simp [flag_drop_prepare fields e p hp]
+  conv => lhs; rw [← List.take_append_drop (rootCount e fields.length) (prepare fields e)]
+  rw [List.filter_append, h1, h2, List.nil_append]
 
 /-! ### the resolver: independence of the fuel, totality on every module -/
 
@@ -662,7 +917,16 @@ def AllTypeTagged (l : List RField) : Prop := ∀ f ∈ l, f.typeTag.isSome = tr
 theorem tagConst_ok (f : RField) (h : f.typeTag.isSome = true) : ∃ t, tagConst f = .ok t := by
   unfold tagConst
   cases f.presence <;> simp only []
-  case default => exact ⟨_, rfl⟩
+  case default =>
+    cases hft : f.tag with
+    | some t => exact ⟨t, by simp⟩
+    | none =>
+      cases hk : f.kind with
+      | builtin k => exact ⟨defaultTag k, by simp [RField.innerTag, hk]⟩
+      | complex =>
+        cases htt : f.typeTag with
+        | none => simp [htt] at h
+        | some t => exact ⟨t, by simp [RField.innerTag, hk, htt]⟩
   all_goals
     cases f.kind with
     | builtin k => exact ⟨_, rfl⟩
@@ -742,11 +1006,11 @@ theorem writeConstraints_ok (o : EncodingOrdering) (l : List RField) (e : Option
   cases o with
   | keep =>
     refine ⟨{ order := (assignImplicitTags l).map (·.name), tags := r, extAfter := e,
-              ownTag := .ofPair Consts.TAG_DEFAULT_SEQUENCE }, ?_, rfl, rfl⟩
+              ownTag := ownDefaultTag .keep }, ?_, rfl, rfl⟩
     simp [writeConstraints, hr, emitOrder]
   | sort =>
     refine ⟨{ order := (sortKeyed (assignImplicitTags l) e).map (·.2.name), tags := r,
-              extAfter := e, ownTag := .ofPair Consts.TAG_DEFAULT_SEQUENCE }, ?_, rfl, rfl⟩
+              extAfter := e, ownTag := ownDefaultTag .sort }, ?_, rfl, rfl⟩
     simp [writeConstraints, hr, emitOrder, sortFieldsCanonically_ok _ e h', List.map_map,
       Function.comp_def]
 
@@ -923,15 +1187,10 @@ theorem extendedFlag_eq_isExtension (c : Components) (hm : c.markers.length ≤ 
     omega
   | _ :: _ :: _, hm, _ => simp at hm
 
-/-- SEQUENCE through the whole pipeline: textual order -/
-theorem emit_keep_order (env : Env) (c : Components) (em : Emitted)
-    (h : emit env .keep c = some (.ok em)) : em.order = c.fields.map (·.name) := by
-  obtain ⟨rfields, hmap, hall, hw⟩ := emit_ok env .keep c em h
-  obtain ⟨em', hem', _, hord⟩ := writeConstraints_ok .keep rfields (extensionAfter c.markers) hall
-  rw [hw] at hem'
-  cases hem'
-  rw [hord]
-  simp only [map_name_assignImplicitTags]
+/-- stage 1 keeps the component names -/
+theorem map_name_rfields (env : Env) (c : Components) (rfields : List RField)
+    (hmap : (c.fields.map fun f => toRField env (defaultFuel env f.ty) f) = rfields.map some) :
+    rfields.map (·.name) = c.fields.map (·.name) := by
   have hlen : rfields.length = c.fields.length := by
     have := congrArg List.length hmap; simpa using this.symm
   apply List.ext_getElem
@@ -943,6 +1202,117 @@ theorem emit_keep_order (env : Env) (c : Components) (em : Emitted)
       have := congrArg (fun l => l[i]?) hmap
       simpa [hi, hi'] using this
     simp [(toRField_spec _ _ _ _ hget).1]
+
+/-- `EXTENDED_AFTER_FIELD` is the `extension_after` index the walker was handed: the sort does not
+    touch it -/
+theorem writeConstraints_extAfter (o : EncodingOrdering) (l : List RField) (e : Option Nat)
+    (em : Emitted) (h : writeConstraints o l e = .ok em) : em.extAfter = e := by
+  unfold writeConstraints at h
+  cases h1 : tagConsts (assignImplicitTags l) with
+  | ok r =>
+    cases h2 : emitOrder o (assignImplicitTags l) e with
+    | ok ord => simp [h1, h2] at h; rw [← h]
+    | err k => simp [h1, h2] at h
+    | panic => simp [h1, h2] at h
+  | err k => simp [h1] at h
+  | panic => simp [h1] at h
+
+/-- the type's own `TAG` (the type under test carries no tag of its own) -/
+theorem writeConstraints_ownTag (o : EncodingOrdering) (l : List RField) (e : Option Nat)
+    (em : Emitted) (h : writeConstraints o l e = .ok em) : em.ownTag = ownDefaultTag o := by
+  unfold writeConstraints at h
+  cases h1 : tagConsts (assignImplicitTags l) with
+  | ok r =>
+    cases h2 : emitOrder o (assignImplicitTags l) e with
+    | ok ord => simp [h1, h2] at h; rw [← h]
+    | err k => simp [h1, h2] at h
+    | panic => simp [h1, h2] at h
+  | err k => simp [h1] at h
+  | panic => simp [h1] at h
+
+/-- what a successful `write_constraints` of a SET went through -/
+theorem writeConstraints_sort_inv (l : List RField) (e : Option Nat) (em : Emitted)
+    (h : writeConstraints .sort l e = .ok em) :
+    ∃ out, sortFieldsCanonically (assignImplicitTags l) e = .ok out ∧
+      em.order = out.map (·.name) := by
+  unfold writeConstraints at h
+  cases h1 : tagConsts (assignImplicitTags l) with
+  | ok r =>
+    cases h2 : emitOrder .sort (assignImplicitTags l) e with
+    | ok ord =>
+      refine ⟨ord, h2, ?_⟩
+      simp [h1, h2] at h; rw [← h]
+    | err k => simp [h1, h2] at h
+    | panic => simp [h1, h2] at h
+  | err k => simp [h1] at h
+  | panic => simp [h1] at h
+
+theorem noneTagged_append (l₁ l₂ : List RField) :
+    NoneTagged (l₁ ++ l₂) ↔ NoneTagged l₁ ∧ NoneTagged l₂ := by
+  unfold NoneTagged
+  simp only [List.mem_append]
+  exact ⟨fun h => ⟨fun f hf => h f (Or.inl hf), fun f hf => h f (Or.inr hf)⟩,
+    fun h f hf => hf.elim (h.1 f) (h.2 f)⟩
+
+/-- **the descriptor of a SET version that appends extension additions** (marker behind component
+    `k` of the old list; the tagging mode stays: a list that is tagged automatically gets untagged
+    additions only) is the old descriptor followed by the new additions, with the same
+    `EXTENDED_AFTER_FIELD` — the order of the `read_value`/`write_value` calls for everything the
+    old version knows is unchanged -/
+theorem writeConstraints_sort_append (fields adds : List RField) (k : Nat) (hk : k < fields.length)
+    (hn : NoneTagged fields → NoneTagged adds) (em1 em2 : Emitted)
+    (h1 : writeConstraints .sort fields (some k) = .ok em1)
+    (h2 : writeConstraints .sort (fields ++ adds) (some k) = .ok em2) :
+    em2.order = em1.order ++ adds.map (·.name) ∧ em2.extAfter = em1.extAfter := by
+  refine ⟨?_, by rw [writeConstraints_extAfter _ _ _ _ h1, writeConstraints_extAfter _ _ _ _ h2]⟩
+  obtain ⟨out1, hs1, ho1⟩ := writeConstraints_sort_inv _ _ _ h1
+  obtain ⟨out2, hs2, ho2⟩ := writeConstraints_sort_inv _ _ _ h2
+  by_cases hnt : NoneTagged fields
+  · have hnt2 : NoneTagged (fields ++ adds) := (noneTagged_append _ _).2 ⟨hnt, hn hnt⟩
+    rw [sort_assignImplicitTags_of_noneTagged fields _ hnt] at hs1
+    rw [sort_assignImplicitTags_of_noneTagged _ _ hnt2] at hs2
+    cases hs1; cases hs2
+    rw [ho1, ho2, map_name_assignImplicitTags, map_name_assignImplicitTags, List.map_append]
+  · have hnt2 : ¬ NoneTagged (fields ++ adds) := fun h => hnt ((noneTagged_append _ _).1 h).1
+    rw [assignImplicitTags_of_tagged fields hnt] at hs1
+    rw [assignImplicitTags_of_tagged _ hnt2] at hs2
+    have ha : ∀ f ∈ adds, (f.tag.orElse fun _ => f.typeTag).isSome = true := by
+      intro f hf
+      unfold sortFieldsCanonically at hs2
+      rw [any_untagged_prepare] at hs2
+      split at hs2
+      · cases hs2
+      · rename_i hany
+        have hany' : (fields ++ adds).any
+            (fun f => (f.tag.orElse fun _ => f.typeTag).isNone) = false := by
+          cases hb : (fields ++ adds).any (fun f => (f.tag.orElse fun _ => f.typeTag).isNone) with
+          | false => rfl
+          | true => exact absurd hb hany
+        have := List.any_eq_false.1 hany' f (List.mem_append_right _ hf)
+        cases hx : (f.tag.orElse fun _ => f.typeTag) with
+        | none => rw [hx] at this; simp at this
+        | some t => rfl
+    rw [sortFieldsCanonically_append fields adds k hk out1 hs1 ha] at hs2
+    cases hs2
+    rw [ho1, ho2, List.map_append, List.map_map]
+    rfl
+
+/-- SEQUENCE through the whole pipeline: textual order -/
+theorem emit_keep_order (env : Env) (c : Components) (em : Emitted)
+    (h : emit env .keep c = some (.ok em)) : em.order = c.fields.map (·.name) := by
+  obtain ⟨rfields, hmap, hall, hw⟩ := emit_ok env .keep c em h
+  obtain ⟨em', hem', _, hord⟩ := writeConstraints_ok .keep rfields (extensionAfter c.markers) hall
+  rw [hw] at hem'
+  cases hem'
+  rw [hord]
+  simp only [map_name_assignImplicitTags]
+  exact map_name_rfields env c rfields hmap
+
+/-- the descriptor's `EXTENDED_AFTER_FIELD` through the whole pipeline -/
+theorem emit_extAfter (env : Env) (o : EncodingOrdering) (c : Components) (em : Emitted)
+    (h : emit env o c = some (.ok em)) : em.extAfter = extensionAfter c.markers := by
+  obtain ⟨rfields, _, _, hw⟩ := emit_ok env o c em h
+  exact writeConstraints_extAfter o rfields _ em hw
 
 /-- whatever is emitted is a permutation of the declared components -/
 theorem emit_order_perm (env : Env) (o : EncodingOrdering) (c : Components) (em : Emitted)
@@ -1035,13 +1405,15 @@ def specTag (env : Env) (c : Components) (f : Field) (i : Nat) : Option Tag :=
 def specKeyed (env : Env) (c : Components) : List (Bool × Option Tag × String) :=
   c.fields.zipIdx.map fun (f, i) => (c.isExtension i, specTag env c f i, f.name)
 
-def specLe (a b : Bool × Option Tag × String) : Bool :=
-  (!a.1 && b.1) || (a.1 == b.1 && optTagLe a.2.1 b.2.1)
+/-- two root components: canonical tag order of X.680 8.6 -/
+def specTagLe (a b : Bool × Option Tag × String) : Bool := optTagLe a.2.1 b.2.1
 
-/-- the canonical order of X.680 8.6 with root before extension additions (ties — illegal in a
-    SET — keep the textual order) -/
+/-- **the wire order X.691 21.1 prescribes for a SET**: the root components sorted into the
+    canonical order of X.680 8.6 (ties — illegal in a SET — keep the textual order), followed by
+    the extension additions "in the order in which they are defined" (as in a SEQUENCE, 19.8) -/
 def specOrder (env : Env) (c : Components) : List String :=
-  ((specKeyed env c).mergeSort specLe).map (·.2.2)
+  (((specKeyed env c).filter (fun k => !k.1)).mergeSort specTagLe ++
+    (specKeyed env c).filter (fun k => k.1)).map (·.2.2)
 
 /-- the generator's type tag agrees with X.680's for the untagged components of a list that is
     not automatically tagged (decidable; fails exactly where an automatically tagged CHOICE
@@ -1125,21 +1497,78 @@ theorem keyed_eq_specKeyed (env : Env) (c : Components) (rfields : List RField)
           simpa [Option.join] using this
         simp [specTag, hft, hsa, h']
 
-/-- **partial**: with the marker not in front of the first component and no automatically tagged
-    CHOICE deciding a position, the emitted SET order is the canonical order of X.680 8.6 -/
+/-- a marker in front of the first component (`extension_after = Some(0)`): one "root" component,
+    nothing to sort — the list stays as written -/
+theorem sortKeyed_marker_first (fields : List RField) :
+    sortKeyed fields (some 0) = prepare fields (some 0) := by
+  rw [sortKeyed_eq]
+  have hlen : ((prepare fields (some 0)).take (rootCount (some 0) fields.length)).length ≤ 1 := by
+    rw [List.length_take]; simp only [rootCount]; omega
+  have : ((prepare fields (some 0)).take (rootCount (some 0) fields.length)).mergeSort keyLe =
+      (prepare fields (some 0)).take (rootCount (some 0) fields.length) := by
+    apply List.mergeSort_of_pairwise
+    match hK : (prepare fields (some 0)).take (rootCount (some 0) fields.length), hlen with
+    | [], _ => exact List.Pairwise.nil
+    | [x], _ => exact List.pairwise_singleton _ _
+    | _ :: _ :: _, hl => simp at hl
+  rw [this, List.take_append_drop]
+
+/-- … which is what X.691 demands when every component is an extension addition -/
+theorem specOrder_marker_first (env : Env) (c : Components) (hmk : c.markers = [0]) :
+    specOrder env c = c.fields.map (·.name) := by
+  have hall : ∀ k ∈ specKeyed env c, k.1 = true := by
+    intro k hk
+    obtain ⟨x, _, rfl⟩ := List.mem_map.1 hk
+    simp [Components.isExtension, hmk]
+  have h1 : (specKeyed env c).filter (fun k => !k.1) = [] :=
+    List.filter_eq_nil_iff.2 fun k hk => by simp [hall k hk]
+  have h2 : (specKeyed env c).filter (fun k => k.1) = specKeyed env c :=
+    List.filter_eq_self.2 fun k hk => hall k hk
+  unfold specOrder
+  rw [h1, h2]
+  simp only [List.mergeSort_nil, List.nil_append]
+  unfold specKeyed
+  rw [List.map_map]
+  have : ((fun k : Bool × Option Tag × String => k.2.2) ∘ fun (x : Field × Nat) =>
+      (c.isExtension x.2, specTag env c x.1 x.2, x.1.name)) = (fun f : Field => f.name) ∘ Prod.fst := by
+    funext x; rfl
+  rw [this, ← List.map_map, List.zipIdx_map_fst]
+
+/-- **partial** (one open finding left): when no automatically tagged CHOICE decides a position,
+    the emitted SET order is the order of X.691 21.1 — root components in the canonical order of
+    X.680 8.6, extension additions as written — wherever the marker stands -/
 theorem emit_sort_eq_specOrder (env : Env) (c : Components) (em : Emitted)
-    (hm : c.markers.length ≤ 1) (h0 : 0 ∉ c.markers) (ht : TagsAgree env c)
+    (hm : c.markers.length ≤ 1) (ht : TagsAgree env c)
     (h : emit env .sort c = some (.ok em)) : em.order = specOrder env c := by
   obtain ⟨rfields, hmap, hall, hw⟩ := emit_ok env .sort c em h
   obtain ⟨em', hem', _, hord⟩ := writeConstraints_ok .sort rfields (extensionAfter c.markers) hall
   rw [hw] at hem'
   cases hem'
   rw [hord]
+  by_cases h0 : 0 ∈ c.markers
+  · have hmk : c.markers = [0] := by
+      match hmk : c.markers, hm, h0 with
+      | [], _, h0 => cases h0
+      | [p], _, h0 => simp at h0; rw [h0]
+      | _ :: _ :: _, hm, _ => simp at hm
+    rw [specOrder_marker_first env c hmk, hmk]
+    have : extensionAfter [0] = some 0 := rfl
+    rw [this, sortKeyed_marker_first, map_name_prepare, map_name_assignImplicitTags]
+    exact map_name_rfields env c rfields hmap
   unfold specOrder
-  rw [← keyed_eq_specKeyed env c rfields hm h0 ht hmap]
-  unfold sortKeyed
-  rw [← List.map_mergeSort (r := keyLe) (s := specLe) (f := fun p => (p.1, p.2.tag, p.2.name))
-    (fun a _ b _ => rfl)]
+  rw [← keyed_eq_specKeyed env c rfields hm h0 ht hmap, List.filter_map, List.filter_map]
+  have hr : ((fun k : Bool × Option Tag × String => !k.1) ∘
+      fun p : Bool × RField => (p.1, p.2.tag, p.2.name)) = fun p => !p.1 := rfl
+  have hx : ((fun k : Bool × Option Tag × String => k.1) ∘
+      fun p : Bool × RField => (p.1, p.2.tag, p.2.name)) = fun p => p.1 := rfl
+  rw [hr, hx, filter_root_prepare, filter_ext_prepare, sortKeyed_eq,
+    ← List.map_mergeSort (r := keyLe) (s := specTagLe) (f := fun p => (p.1, p.2.tag, p.2.name))
+      (fun a ha b hb => by
+        have h1 := flag_take_prepare _ _ a ha
+        have h2 := flag_take_prepare _ _ b hb
+        obtain ⟨fa, ra⟩ := a; obtain ⟨fb, rb⟩ := b
+        simp only at h1 h2
+        subst h1; subst h2; rfl)]
   simp [List.map_map, Function.comp_def]
 
 end Asn1Verif.Codegen.Tags
